@@ -598,6 +598,11 @@ func (g *genCtx) paramVariants(reqs []*genReq, states []*c12State) {
 		r, st, res := reqs[j.i], states[j.i], pres[k]
 		o.count("param/" + j.kind)
 		switch j.kind {
+		case "unknown-flag", "default-features", "empty-params":
+			// the flag handling of main, interpreted: an unknown flag ends the process, no features= means "all"
+			g.gp.mainLine(o, r, j.param, res)
+		}
+		switch j.kind {
 		case "unknown-flag", "bad-paths", "bad-pool":
 			// protogen's convention for a bad parameter: exit status 1 and a one-line message on stderr (protoc prints it); a
 			// response carrying an error is just as good. A panic, a hang or files are not.
